@@ -41,6 +41,34 @@ func init() {
 			} else {
 				rec = append(append([]string{"\x18("}, K...), "\x18)", "\x18e")
 			}
+			// one time in three the keys of K reach the shell one byte per read while they are recorded (a key
+			// sequence typed by hand, an arrow key cut by a read): never cut after an ESC in the Vi modes, nor
+			// inside a UTF-8 character
+			if r.Intn(3) == 0 {
+				var cut []string
+				for _, k := range rec {
+					if len(k) == 1 || k[0] >= 0x80 {
+						cut = append(cut, k)
+						continue
+					}
+					cur := ""
+					for i := 0; i < len(k); i++ {
+						cur += string(k[i])
+						if k[i] >= 0x80 || (vi && k[i] == 0x1b && i+1 < len(k)) {
+							continue
+						}
+						if i+1 < len(k) && k[i+1] >= 0x80 && k[i+1] < 0xc0 {
+							continue
+						}
+						cut = append(cut, cur)
+						cur = ""
+					}
+					if cur != "" {
+						cut = append(cut, cur)
+					}
+				}
+				rec = cut
+			}
 			typed, replay := base, base
 			typed.Chunks = hexChunks(append(append(append([]string{}, pre...), K...), K...))
 			replay.Chunks = hexChunks(append(append([]string{}, pre...), rec...))
